@@ -17,6 +17,7 @@ Classes provided by this module:
 
 from typing import Iterator
 from numbers import Number
+import weakref
 from collections import defaultdict
 from ak import utils
 from ak.color import CHText, Palette, CompoundPalette, PaletteUser, ConfColor
@@ -2034,8 +2035,9 @@ class PPEnumFieldType(FieldType):
             (len(str(x)) for x in self.enum_values if x is not None),
             default=1)
 
-        # {syntax_names_id: {fmt_modifier: {enum_val: (text, align)}}}
-        self._cache = {}
+        # {palette: {fmt_modifier: {enum_val: (text, align)}}}
+        # (weak keys: cached data must not outlive the palette it was made for)
+        self._cache = weakref.WeakKeyDictionary()
 
         self._cache_lengths = {
             fmt_modifier: {}
@@ -2053,7 +2055,7 @@ class PPEnumFieldType(FieldType):
     ) -> ([CHText.Chunk], int):
         """value -> desired text and alignment"""
 
-        cache_key = id(field_palette)  # need to maintain separate caches
+        cache_key = field_palette  # need to maintain separate caches
                             # enum_value -> CTHText for different palettes
         # prepare and cache cell text for a enum value
         # cache is prepared for all supported format modifiers
